@@ -101,22 +101,25 @@ PROPS = {
         ]),
     "C11": dict(
         probes=["iter", "capture"],
-        explanation="kernel of C11 on the two Rust-level consumers every reducer goes through: collect::exec (`it $]`) and "
+        explanation="kernel of C11 on the three Rust-level consumers of iterators: collect::exec (`it $]`), "
                     "Reduce::exec (`it $ init f`, and through the SimpleSL-source definitions of src/stdlib/operators.rs also "
-                    "$+ $* $& $|) are proved on their verbatim bodies (V). A pull is a call without arguments; the iterator's "
+                    "$+ $* $& $|) and partition::exec (`it \\ p`) are proved on their verbatim bodies (V). A pull is a call without arguments; the iterator's "
                     "state lives in cells it captured, so NOTHING is assumed about what a pull returns: the proof holds for "
                     "every sequence of pull results. The sequence actually pulled is a ghost history injected into the loop; "
                     "the obligations (loop invariants and final assertions over that history) say: the result is exactly the "
                     "second components of the continuing pulls, in pull order (resp. the left fold of f over them, starting "
-                    "from init); the loop ends at the first pull that is not `(c, x)` with c != false, and no element after it "
+                    "from init; resp. the pair of those with p(x) == true and the others, each in pull order); the loop ends at the first pull that is not `(c, x)` with c != false, and no element after it "
                     "is used; an error of a pull or of f ends the loop. The operators defined in SimpleSL source "
-                    "(@ ? ?T ~ $&& $|| for, the reducers' glue) and partition::exec are covered by the bounded `iter` "
+                    "(@ ? ?T ~ $&& $|| for, the reducers' glue) are covered by the bounded `iter` "
                     "probes against a Python model of the sequence definitions (pull counter, call log).",
         assumptions=COMMON + MACHINE + [
             "Function::exec_with_args on a NON-empty argument list is a function of (function value, arguments) (fresh interpreter; effects "
             "through captured cells are not modelled); on an empty argument list (a pull) it is unconstrained",
             "well-typed iterator: every tuple a pull returns has two components (the checker admits only () -> (bool, T))",
             "impl From<Vec<Variable>> for Variable builds an array of exactly these elements (variable/try_from.rs: not verified)",
+            "partition::exec: `var!((left, right))` is rewritten to the macro's own expansion for a tuple of identifiers (macros/src/var.rs); "
+            "Typed::as_type of a function value and Type::iter_element are uninterpreted (they only determine the stored element type); "
+            "core::slice::from_ref, Vec -> Arc<[T]>, [T; 2] -> Arc<[T]> are assumed std contracts",
             "the obligations about the pull history are carried by injected loop invariants / assertions (ensures clauses cannot mention a ghost local); "
             "the injection anchors are short tokens of the loop (`vec.push(`, `result = function.exec_with_args(`): an edit that removes them makes the unit undecided",
             "@ ? ?T ~ $&& $|| $+ $* $& $| `for` are SimpleSL source / desugaring evaluated by the interpreter: NOT under contract, bounded probes only",
